@@ -14,8 +14,19 @@ pub open spec fn optional(f: RustField) -> bool { is_opt(f.ty) || f.has_default 
 /// `#[typeshare(<lang>(type = ".."))]` on the field, if any (decorator lookup: iterator chain, uninterpreted)
 pub uninterp spec fn type_override_of(f: RustField, l: SupportedLanguage) -> Option<Seq<char>>;
 /// the text standing for the field's type: the override if there is one, else a translation of the Rust type (C05)
+/// how a per-language type override is written for an Option<T> field: the override replaces the translated type, not the optionality, and in these
+/// four languages the marker of Option<T> is part of the type text (as it is in the translation of Option<T> itself)
+pub open spec fn opt_wrap(l: SupportedLanguage, o: Seq<char>) -> Seq<char> {
+    match l {
+        SupportedLanguage::Kotlin => o + "?"@,
+        SupportedLanguage::Swift => o + "?"@,
+        SupportedLanguage::Scala => "Option["@ + o + "]"@,
+        SupportedLanguage::Go => "*"@ + o,
+        _ => o,
+    }
+}
 pub open spec fn field_type_ok(c: TCfg, g: Seq<String>, f: RustField, l: SupportedLanguage, t: Seq<char>) -> bool {
-    match type_override_of(f, l) { Some(o) => t == o, None => tx_ok(c, g, f.ty, t) }
+    match type_override_of(f, l) { Some(o) => t == (if is_opt(f.ty) { opt_wrap(l, o) } else { o }), None => tx_ok(c, g, f.ty, t) }
 }
 /// trigger plumbing for "the output is  earlier text + pre + member + post"
 pub open spec fn wit3(pre: Seq<char>, t: Seq<char>, post: Seq<char>) -> bool { true }
